@@ -79,7 +79,7 @@ func (g *G) top(fn Value, args []Value, pos token.Pos) {
 			}
 			vm.endPath(&PathResult{Kind: r.kind, Msg: r.msg, Pos: g.where(), G: g.name})
 		case targetPanic:
-			vm.endPath(&PathResult{Kind: "PANIC", Msg: fmt.Sprintf("%s: %v", r.kind, r.v), Pos: r.pos, G: g.name, PanicKind: r.kind, Stack: g.stack()})
+			vm.endPath(&PathResult{Kind: "PANIC", Msg: fmt.Sprintf("%s: %v", r.kind, r.v), Pos: r.pos, G: g.name, PanicKind: r.kind, Stack: g.stack(), Fn: r.fn})
 		case lenientAbort:
 			vm.endPath(&PathResult{Kind: "UNSUPPORTED", Msg: "lenient abort escaped: " + r.why, Pos: g.where()})
 		default:
@@ -660,7 +660,7 @@ func (g *G) mutexUnlock(p *Value, pos token.Pos) {
 	vm := g.vm
 	m := vm.mutexOf(p)
 	if !m.locked {
-		panic(targetPanic{v: "sync: unlock of unlocked mutex", kind: "fatal-unlock", pos: vm.posStr(pos)})
+		panic(targetPanic{v: "sync: unlock of unlocked mutex", kind: "fatal-unlock", pos: vm.posStr(pos), fn: g.curFn()})
 	}
 	if vm.race != nil {
 		vm.race.release(g, &m.sync)
@@ -740,16 +740,16 @@ type poolSt struct {
 }
 
 type TimerV struct {
-	id       int
-	deadline IntV
-	fn       Value
-	ch       *ChanV
-	active   bool
-	fired    bool
-	vc       []int
+	id        int
+	deadline  IntV
+	fn        Value
+	ch        *ChanV
+	active    bool
+	fired     bool
+	vc        []int
 	createdAt IntV
-	pos      token.Pos
-	handle   *Value // address of the time.Timer struct (if any)
+	pos       token.Pos
+	handle    *Value // address of the time.Timer struct (if any)
 }
 
 func (vm *VM) newTimer(d IntV, fn Value, ch *ChanV, g *G, pos token.Pos) *TimerV {
